@@ -1823,6 +1823,10 @@ func patchCode(context *funcContext) { // {{{
 				}
 				distance = d
 				count++
+				if distance < 0 {
+					// instructions before pc are already patched: their Sbx is a distance, no longer a label
+					break
+				}
 			}
 			if distance == 0 {
 				context.Code.SetOpCode(pc, OP_NOP)
